@@ -6,7 +6,7 @@ from concurrent.futures import ThreadPoolExecutor
 import common, lbtool, owntool
 
 C02_KINDS = ('view-corrupt', 'free-while-view-live', 'content-not-intact')
-C03_KINDS = ('double-free', 'foreign-free', 'caller-memory-freed', 'caller-memory-written', 'freed-block-in-chain', 'private-copy-in-pool-block')
+C03_KINDS = ('hang:', 'double-free', 'foreign-free', 'caller-memory-freed', 'caller-memory-written', 'freed-block-in-chain', 'private-copy-in-pool-block')
 KNOWN_TAG = 'D4-split-block'
 
 def have_own_driver():
@@ -18,7 +18,9 @@ def read(p): return open(p).read().split('\n')[:-1]
 def run_one(binary, wd, gen_args):
     os.makedirs(wd, exist_ok=True)
     f = {n: os.path.join(wd, n) for n in ('ops', 'impl', 'own', 'model', 'spec', 'ledger')}
-    subprocess.run([binary, *gen_args, '-impl-out', f['impl'], '-poison', '-own-out', f['own']], check=True, timeout=3600)
+    pr = subprocess.run([binary, *gen_args, '-impl-out', f['impl'], '-poison', '-own-out', f['own']], timeout=3600)
+    if pr.returncode not in (0, 3):    # 3 = watchdog: an op never returned (reported as a "hang" problem line)
+        raise RuntimeError('lbdiff exit %d' % pr.returncode)
     ops = f['ops'] if '-ops-out' in gen_args else gen_args[gen_args.index('-replay') + 1]
     with open(ops) as i, open(f['model'], 'w') as o:
         subprocess.run([common.DRIVER, 'lb'], stdin=i, stdout=o, check=True, timeout=3600)
